@@ -37,6 +37,39 @@ def main():
     def same(a, b):
         return (a == b) or (isinstance(a, float) and isinstance(b, float) and math.isnan(a) and math.isnan(b))
 
+    # ---- spans beyond 2^24 (worker 0 only): one interval covers a chromosome of 17 x w bases; requests
+    # overhang by one bin on the left, on the right and on both sides; every bin inside the chromosome
+    # holds the value, every bin outside holds oob
+    import os
+    bigm = os.path.join(os.path.dirname(manifest), "manifest_big.json")
+    if part == 0 and os.path.exists(bigm):
+        for f in json.load(open(bigm)):
+            Lb, w, val = f["length"], f["width"], f["value"]
+            try:
+                b = pybigtools.open(f["path"])
+            except BaseException as e:
+                fail("open_failed", [f["kind"], "large_span"], {"idx": -1, "file": f["path"]}, repr(e))
+                continue
+            for (s, e) in ((-w, Lb), (0, Lb + w), (-w, Lb + w), (-2 * w, Lb)):
+                bins = (e - s) // w
+                for summary in ("mean", "min", "max"):
+                    for exact in (True, False):
+                        stats["large_span_calls"] = stats.get("large_span_calls", 0) + 1
+                        case = {"idx": -1, "file": f["path"].split("/")[-1], "kind": f["kind"], "start": s, "end": e,
+                                "bins": bins, "summary": summary, "exact": exact}
+                        try:
+                            got = [float(x) for x in b.values("c", s, e, bins=bins, summary=summary, exact=exact, missing=-1.0, oob=-7.0)]
+                        except BaseException as ex:
+                            fail("values_raised", [f["kind"], "large_span"], case, repr(ex))
+                            continue
+                        want = []
+                        for i in range(bins):
+                            a, z = s + i * w, s + (i + 1) * w
+                            want.append(-7.0 if (z <= 0 or a >= Lb) else val)
+                        if len(got) != bins or any(abs(g - x) > 1e-9 for g, x in zip(got, want)):
+                            fail("large_span_bins_wrong", [f["kind"], "large_span"], case,
+                                 f"values({s},{e},bins={bins}) = {got}, expected {want}")
+
     idx = -1
     for fi, f in enumerate(files):
         L = f["length"]
